@@ -19,9 +19,33 @@ def serdigest(seed: int, n: int) -> None:
     print(h.hexdigest())
 
 
+def fixtures(pre: str) -> None:
+    """verify a GPG-mode and a raw-mode envelope in a process that imported nothing else"""
+    import importlib
+    import os
+
+    for m in [x for x in pre.split(",") if x]:
+        importlib.import_module(m)
+    from . import gen, impl
+
+    out = []
+    for gpg in (True, False):
+        ks = [gen.key(1), gen.key(2)]
+        env = gen.sign_env(gen.envelope({"a": [1, 2.5, "é"]}), ks, gpg)
+        with impl.quiet_stdout("utf-8"):
+            try:
+                impl.authentication.verify_signable(env, [k.hex for k in ks], 2, gpg)
+                out.append("OK")
+            except Exception as e:  # noqa: BLE001
+                out.append(impl.classify(e))
+    print(" ".join(out))
+
+
 if __name__ == "__main__":
     cmd = sys.argv[1]
     if cmd == "serdigest":
         serdigest(int(sys.argv[2]), int(sys.argv[3]))
+    elif cmd == "fixtures":
+        fixtures(sys.argv[2] if len(sys.argv) > 2 else "")
     else:
         raise SystemExit("unknown command")
